@@ -48,7 +48,7 @@ from harness.universe import (
 )
 
 NMAX = {"quick": 5, "thorough": 6}
-CONFIGS_PER_COMBO = {"quick": 6, "thorough": 60}
+CONFIGS_PER_COMBO = {"quick": 5, "thorough": 16}
 OPTIONS = ("default", "smallest", "expand_verified")
 MAX_RESUMES = 400
 CASE_TIMEOUT_S = 120  # a case normally takes < 0.1 s; a hang is reported as search-crash
@@ -107,8 +107,11 @@ SCHEDULES: List[tuple] = (
 def patched(schedule: tuple, rng_seed: int):
     """Install the fake clock and the seeded RNG for the duration of one case."""
     saved = (css_mod.time, ts_mod.time, ts_mod.choice, ts_mod.shuffle)
+    saved_asizeof = css_mod.asizeof
     rng = random.Random(rng_seed)
     try:
+        # pympler's memory statistic in the "specification found" log message costs more than the search itself
+        css_mod.asizeof = lambda obj: 0
         if schedule[0] != "real":
             css_mod.time = FakeClock(schedule)
             ts_mod.time = StepClock(1.0 if rng_seed % 2 == 0 else 0.003)
@@ -117,6 +120,7 @@ def patched(schedule: tuple, rng_seed: int):
         yield
     finally:
         css_mod.time, ts_mod.time, ts_mod.choice, ts_mod.shuffle = saved
+        css_mod.asizeof = saved_asizeof
 
 
 # --------------------------------------------------------------------------------------------------------------
@@ -195,7 +199,7 @@ def contracts_installed():
 # case = (start repr, pack name, db name, option, schedule, rng seed)
 
 
-def enumerate_cases(tier: str, seed: int) -> List[tuple]:
+def enumerate_cases(tier: str, seed: int, per_combo: Optional[int] = None) -> List[tuple]:
     """Every (start, pack, rule db) combination of the universe, each with CONFIGS_PER_COMBO[tier] configurations
     (option, schedule, rng seed) drawn without replacement by random.Random(seed)."""
     rng = random.Random(seed)
@@ -211,7 +215,9 @@ def enumerate_cases(tier: str, seed: int) -> List[tuple]:
             if not pack_applicable(pack_name, start):
                 continue
             for db_name in RULEDBS:
-                for opt, sched, r in rng.sample(configs, CONFIGS_PER_COMBO[tier]):
+                for opt, sched, r in rng.sample(
+                    configs, per_combo or CONFIGS_PER_COMBO[tier]
+                ):
                     cases.append((repr(start), pack_name, db_name, opt, sched, r))
     return cases
 
@@ -285,6 +291,13 @@ def spec_signature(spec) -> Tuple[int, int]:
     return len(items), zlib.crc32(repr(items).encode())
 
 
+def _safe(thunk):
+    try:
+        return thunk()
+    except Exception as e:  # pylint: disable=broad-except
+        return f"<{type(e).__name__}: {str(e)[:80]}>"
+
+
 def check_spec(spec, start, nmax: int, order_seed: int) -> List[dict]:
     """Call the contracted count/get_terms for all n <= nmax and all parameter values.  Returns violations."""
     problems = []
@@ -299,8 +312,8 @@ def check_spec(spec, start, nmax: int, order_seed: int) -> List[dict]:
                 {
                     "check": "terms-vs-bruteforce",
                     "n": n,
-                    "what": f"get_terms({n}) = {dict(_real_get_terms(spec, n))}, brute force "
-                    f"{dict(brute_terms(start, n))}",
+                    "what": f"get_terms({n}) = {_safe(lambda: dict(_real_get_terms(spec, n)))}, brute "
+                    f"force {dict(brute_terms(start, n))}",
                 }
             )
         for values in itertools.product(range(n + 2), repeat=k):
@@ -313,7 +326,7 @@ def check_spec(spec, start, nmax: int, order_seed: int) -> List[dict]:
                         "check": "count-vs-bruteforce",
                         "n": n,
                         "what": f"count_objects_of_size({n}, {params}) = "
-                        f"{_real_count(spec, n, **params)}, brute force "
+                        f"{_safe(lambda: _real_count(spec, n, **params))}, brute force "
                         f"{brute_terms(start, n)[values]}",
                     }
                 )
